@@ -822,10 +822,10 @@ func (w *l2world) exec1(op *sop, stats map[string]int) bool {
 				switch {
 				case perr != nil:
 					out.s("?")
-				case t.Unix() >= l2BaseSec-100000 && t.Unix() <= l2BaseSec+100000 || t.Unix() == 4102444800:
-					out.z(t.Unix())
-				default:
+				case time.Since(t) > -time.Hour && time.Since(t) < 24*time.Hour:
 					out.s("A") // the automatic transaction time (wall clock)
+				default:
+					out.z(t.Unix()) // an explicit time (the generators use 2023, 2050 and 2100)
 				}
 			}
 		}
@@ -1165,6 +1165,12 @@ func runL2History(g *gen, prof l2profile, nops int, stats map[string]int) (strin
 	key := func() sval { return keys[g.r.Intn(len(keys))] }
 	clock := l2BaseSec
 	nextT := func() int64 {
+		if prof.monotone && prof.faults {
+			// strictly increasing: a failed retirement can leave a superseded version under current/,
+			// and two writes at ONE time in two versions have no order the properties define
+			clock += int64(1+g.r.Intn(2)) * 10
+			return clock
+		}
 		if prof.monotone {
 			clock += int64(g.r.Intn(3)) * 10 // non-decreasing, ties possible
 			if clock == l2BaseSec {
